@@ -36,9 +36,9 @@ Definition IP4_ID : getter := fun p => rbe16 p 4.
 Definition IP4_Flags : getter := fun p => b <- idx p 6 ;; Ok (VN (N.land b 224)).
 Definition IP4_FlagDontFragment : getter := fun p => rbit p 6 64.
 Definition IP4_FlagMoreFragments : getter := fun p => rbit p 6 32.
-(* ((uint16(p[6]) & 0b00011111) << 8) & uint16(p[7])   -- '&' where '|' is meant *)
+(* ((uint16(p[6]) & 0b00011111) << 8) | uint16(p[7])   (repaired: was '&') *)
 Definition IP4_Fragment : getter := fun p =>
-  b6 <- idx p 6 ;; b7 <- idx p 7 ;; Ok (VN (N.land (N.shiftl (N.land b6 31) 8) b7)).
+  b6 <- idx p 6 ;; b7 <- idx p 7 ;; Ok (VN (N.lor (N.shiftl (N.land b6 31) 8) b7)).
 Definition IP4_TTL : getter := fun p => rbyte p 8.
 Definition IP4_Checksum : getter := fun p => rbe16 p 10.
 Definition IP4_Src : getter := fun p => rarr p 12 4.
@@ -51,15 +51,18 @@ Definition IP4_Payload : getter := fun p =>
 Definition IP4_String : getter :=
   calls [IP4_Version; IP4_Src; IP4_Dst; IP4_Protocol; IP4_TTL; IP4_TOS; IP4_Flags; IP4_Fragment; IP4_TotalLen].
 
-(* if n := len(p); n >= 20 && n >= p.IHL() && n >= p.TotalLen() { return nil }
-   if n := len(p); n < 20 || n < p.IHL() { return ... }
-   return fmt.Errorf(..., p.TotalLen(), ...) *)
+(* if n := len(p); n >= 20 && p.IHL() >= 20 && n >= p.IHL() && p.TotalLen() >= p.IHL() && n >= p.TotalLen() { return nil }
+   if n := len(p); n < 20 || p.IHL() < 20 || n < p.IHL() { return ... }
+   return fmt.Errorf(..., p.TotalLen(), ...)          (repaired: IHL >= 20 and TotalLen >= IHL were not checked) *)
 Definition IP4_IsValid (p : slice) : res bool :=
   let n := lenN p in
   c <- andr (Ok (20 <=? n))
-            (andr (ihl <- IP4_IHL_n p ;; Ok (ihl <=? n)) (tl <- IP4_TotalLen_n p ;; Ok (tl <=? n))) ;;
+        (andr (ihl <- IP4_IHL_n p ;; Ok (20 <=? ihl))
+          (andr (ihl <- IP4_IHL_n p ;; Ok (ihl <=? n))
+            (andr (tl <- IP4_TotalLen_n p ;; ihl <- IP4_IHL_n p ;; Ok (ihl <=? tl))
+                  (tl <- IP4_TotalLen_n p ;; Ok (tl <=? n))))) ;;
   if c then Ok true else
-  c2 <- orr (Ok (n <? 20)) (ihl <- IP4_IHL_n p ;; Ok (n <? ihl)) ;;
+  c2 <- orr (Ok (n <? 20)) (orr (ihl <- IP4_IHL_n p ;; Ok (ihl <? 20)) (ihl <- IP4_IHL_n p ;; Ok (n <? ihl))) ;;
   if c2 then Ok false else _ <- IP4_TotalLen_n p ;; Ok false.
 
 (* psh := make([]byte, 20); copy(psh[0:10], p[0:10]); copy(psh[10:18], p[12:20]); Checksum(psh) *)
@@ -98,8 +101,9 @@ Definition TCP_SrcPort : getter := fun p => rbe16 p 0.
 Definition TCP_DstPort : getter := fun p => rbe16 p 2.
 Definition TCP_Seq : getter := fun p => rbe32 p 4.
 Definition TCP_Ack : getter := fun p => rbe32 p 8.
-(* int(p[12] >> 4) : the data offset in 32-bit words, returned as if bytes *)
-Definition TCP_HeaderLen : getter := fun p => b <- idx p 12 ;; Ok (VN (N.shiftr b 4)).
+(* int(p[12]>>4) * 4   (repaired: the data offset counts 32-bit words) *)
+Definition TCP_HeaderLen_n (p : slice) : res N := b <- idx p 12 ;; Ok (N.shiftr b 4 * 4).
+Definition TCP_HeaderLen : getter := fun p => n <- TCP_HeaderLen_n p ;; Ok (VN n).
 Definition TCP_NS : getter := fun p => rbit p 12 1.
 Definition TCP_FIN : getter := fun p => rbit p 13 1.
 Definition TCP_SYN : getter := fun p => rbit p 13 2.
@@ -112,9 +116,12 @@ Definition TCP_CWR : getter := fun p => rbit p 13 128.
 Definition TCP_Window : getter := fun p => rbe16 p 14.
 Definition TCP_Checksum : getter := fun p => rbe16 p 16.
 Definition TCP_Urgent : getter := fun p => rbe16 p 18.
-(* p[p[12]>>4:] *)
-Definition TCP_Payload : getter := fun p => b <- idx p 12 ;; rfrom p (N.to_nat (N.shiftr b 4)).
-Definition TCP_IsValid (p : slice) : res bool := Ok (20 <=? lenN p).
+(* p[p.HeaderLen():] *)
+Definition TCP_Payload : getter := fun p => n <- TCP_HeaderLen_n p ;; rfrom p (N.to_nat n).
+(* len(p) >= 20 && p.HeaderLen() >= 20 && len(p) >= p.HeaderLen()   (repaired: only the length was checked) *)
+Definition TCP_IsValid (p : slice) : res bool :=
+  andr (Ok (20 <=? lenN p))
+       (andr (n <- TCP_HeaderLen_n p ;; Ok (20 <=? n)) (n <- TCP_HeaderLen_n p ;; Ok (n <=? lenN p))).
 
 Definition TCP_getters : gtable :=
   [("ACK", TCP_ACK); ("Ack", TCP_Ack); ("CWR", TCP_CWR); ("Checksum", TCP_Checksum);
@@ -177,17 +184,16 @@ Definition Ether_Payload : getter := fun p =>
 Definition nil_slice : slice := mkSlice [] 0.
 Definition Ether_Payload_s (p : slice) : res slice :=
   q <- Ether_Payload_l p ;; Ok (match q with Some l => lsl l | None => nil_slice end).
-(* switch p.EtherType() { case IP: IP4(p.Payload()).Src(); case IPV6: IP6(p.Payload()).Src() }; netip.Addr{} *)
-Definition Ether_SrcIP : getter := fun p =>
+(* switch p.EtherType() { case IP: if len(p) >= 14+20 { return IP4(p[14:]).Src() }
+                           case IPV6: if len(p) >= 14+40 { return IP6(p[14:]).Src() } }; return netip.Addr{}
+   (repaired: the IP header of the payload was indexed unguarded) *)
+Definition Ether_ip (g4 g6 : getter) : getter := fun p =>
   et <- Ether_EtherType_n p ;;
-  if et =? 2048 then q <- Ether_Payload_s p ;; IP4_Src q
-  else if et =? 34525 then q <- Ether_Payload_s p ;; IP6_Src q
+  if et =? 2048 then (if 34 <=? lenN p then q <- slfrom p 14 ;; g4 q else Ok (VX []))
+  else if et =? 34525 then (if 54 <=? lenN p then q <- slfrom p 14 ;; g6 q else Ok (VX []))
   else Ok (VX []).
-Definition Ether_DstIP : getter := fun p =>
-  et <- Ether_EtherType_n p ;;
-  if et =? 2048 then q <- Ether_Payload_s p ;; IP4_Dst q
-  else if et =? 34525 then q <- Ether_Payload_s p ;; IP6_Dst q
-  else Ok (VX []).
+Definition Ether_SrcIP : getter := Ether_ip IP4_Src IP6_Src.
+Definition Ether_DstIP : getter := Ether_ip IP4_Dst IP6_Dst.
 (* FastLog: EtherType Src Dst *)
 Definition Ether_String : getter := calls [Ether_EtherType; Ether_Src; Ether_Dst].
 Definition Ether_IsValid (p : slice) : res bool := Ok (14 <=? lenN p).
